@@ -4,6 +4,7 @@
   assignment and EVERY order of completions.
 -/
 import NextestModel.Model.Sched
+import NextestModel.Model.Priority
 namespace NextestModel.C08
 open NextestModel.Sched
 
@@ -193,5 +194,29 @@ theorem no_capture_serial (gm : List Nat) (items : List Item) (ops : List Op) (s
     intro r hr; have := hall r hr; simp [gw, hm]; omega
   simp only [wsum] at hsum
   omega
+
+/-! ## Dispatch order: descending priority, then (binary id, test name) -/
+
+open NextestModel.Priority in
+private theorem prioLe_trans (a b c : PTest) : prioLe a b = true → prioLe b c = true → prioLe a c = true := by
+  simp [prioLe]; omega
+
+open NextestModel.Priority in
+private theorem prioLe_total (a b : PTest) : (prioLe a b || prioLe b a) = true := by
+  simp [prioLe]; omega
+
+open NextestModel.Priority in
+/-- **Tests are dispatched in descending priority and, within a priority, in the order
+    `iter_tests` yields them (binary id, then test name)**: the queue is a permutation of the test
+    list (nothing dropped, nothing duplicated), sorted by descending priority, and stable — any two
+    tests `a` before `b` in (binary id, name) order with `priority a ≥ priority b` stay in that order. -/
+theorem priority_queue_order (l : List PTest) :
+    (queue l).Perm l ∧ (queue l).Pairwise (fun a b => b.priority ≤ a.priority) ∧
+    (∀ a b, List.Sublist [a, b] l → b.priority ≤ a.priority → List.Sublist [a, b] (queue l)) := by
+  refine ⟨List.mergeSort_perm l prioLe, ?_, ?_⟩
+  · have := List.pairwise_mergeSort prioLe_trans prioLe_total l
+    exact this.imp (by intro a b h; simpa [prioLe] using h)
+  · intro a b hsub hp
+    exact List.pair_sublist_mergeSort prioLe_trans prioLe_total (by simpa [prioLe] using hp) hsub
 
 end NextestModel.C08
